@@ -27,13 +27,12 @@ CONSTANTS Size,      \* "q" | "t" : bounds of the enumeration
 \* ---------- bounds ----------
 Seqs(S, n) == [1..n -> S]
 WX == IF Size = "t" THEN Seqs({1, 2, 3}, 3) \cup { << 1, 1, 1, 1 >>, << 1, 2, 2, 1 >>, << 3, 1, 2, 1 >>, << 2, 1, 1, 3 >>, << 2, 2 >>, << 1, 3 >> }
-      ELSE Seqs({1, 2}, 3) \cup { << 3, 1, 2 >>, << 1, 3, 1 >>, << 1, 2, 2, 1 >>, << 3, 1, 2, 1 >> }
-WY == IF Size = "t" THEN { << 1, 1, 1 >>, << 1, 2, 1 >>, << 2, 1, 3 >>, << 1, 1, 1, 1 >>, << 2, 2 >> }
-      ELSE { << 1, 2, 1 >>, << 2, 2 >> }
-WZ == IF Size = "t" THEN { << 1, 1 >>, << 2, 1 >>, << 2, 2, 2 >> } ELSE { << 1, 1 >>, << 2, 1 >> }
-\* radii in quarter units: 1, 1.25, 1.5, 2, 2.5, 3 (ellipsoids of the quick tier: 1, 1.5, 2 only)
+      ELSE { << 2, 2, 2 >>, << 1, 2, 1 >>, << 3, 1, 2 >>, << 1, 1, 2 >>, << 1, 2, 2, 1 >> }
+WY == IF Size = "t" THEN { << 1, 2, 1 >>, << 2, 1, 3 >>, << 2, 2 >> } ELSE { << 1, 2, 1 >>, << 2, 2 >> }
+WZ == IF Size = "t" THEN { << 1, 1 >>, << 2, 1 >> } ELSE { << 2, 1 >> }
+\* radii in quarter units: 1, 1.25, 1.5, 2, 2.5, 3
 Radii    == IF Size = "t" THEN {4, 5, 6, 8, 10, 12} ELSE {4, 6, 8, 10}
-EllRadii == IF Size = "t" THEN {4, 5, 6, 8, 10} \X {4, 6, 8} \X {4, 6, 8} ELSE {4, 6, 8} \X {4, 8} \X {4, 6}
+EllRadii == IF Size = "t" THEN {4, 5, 6, 8, 10} \X {4, 6, 8} \X {4, 8} ELSE {4, 6, 8} \X {4, 8} \X {4, 6}
 \* shape centre off the box middle by a quarter unit (x only); Mirror produces the negative offsets
 Offs  == {0, 1}
 
@@ -58,7 +57,8 @@ Shape(k, q, ax, p, o) == [ kind |-> k, q |-> q, axis |-> ax, poly |-> p, off |->
 Shapes0 == { Shape("ell", q, 1, NoPoly, o) : q \in EllRadii, o \in Offs }
       \cup { Shape("cyl", << r, r, r >>, ax, NoPoly, o) : r \in Radii, ax \in 1..3, o \in Offs }
       \cup { Shape("cyl", << 4, 6, 10 >>, ax, NoPoly, 0) : ax \in 1..3 }                        \* elliptic cross-sections
-      \cup { Shape("poly", << 4, 4, 4 >>, ax, Polys[p], o) : p \in 1..Len(Polys), ax \in 1..3, o \in Offs }
+      \cup { Shape("poly", << 4, 4, 4 >>, ax, Polys[p], 0) : p \in 1..Len(Polys), ax \in 1..3 }
+      \cup { Shape("poly", << 4, 4, 4 >>, ax, Polys[p], 1) : p \in 1..Len(Polys), ax \in IF Size = "t" THEN 1..3 ELSE {3} }
 
 VARIABLES E,      \* lattice: cell edges per axis (Edges of the chosen widths)
           box,    \* placed box: << lo, hi >> edge indices per axis (cells lo .. hi-1)
